@@ -10,6 +10,14 @@ CHECKS = {
    note='Trusted: reference interpreters A and B (must agree), the STO filter (discarding unspecified cases), CPython 3.12. Held on the executions observed, never "verified".',
    tech='runtime differential monitoring of answer sequences against dual reference interpreters'),
 }
+CHECKS['C05'] = dict(cat='exploration', ref='4 C05',
+   text='Runtime differential monitor over generated clause bodies with cuts in every transparent position, several clauses, a caller with its own alternatives and several definition groups, plus a bounded-exhaustive slice of small bodies; the reference counts executed cuts and pruned alternatives so that runs which never exercised a cut are inconclusive.',
+   note='Trusted: reference interpreters A and B (must agree). Cut inside conditions of -> and under \\+ is outside the statement and not generated.',
+   tech='runtime differential monitoring (answer sequences identify the path taken) against dual reference interpreters')
+CHECKS['C06'] = dict(cat='exploration', ref='4 C06',
+   text='Runtime differential monitor over random nestings of ; -> \\+ with continuations, rendered with minimal parentheses so that the grammar/visitor precedence is decided by semantics; coverage of every source-reachable rewrite case of the code generator is measured from its own debug output and required.',
+   note='Trusted: reference interpreters A and B (must agree); the renderer (priorities 1000/1050/1100, right associative).',
+   tech='runtime differential monitoring against dual reference interpreters with rewrite-case coverage floor')
 PENDING = {}
 
 def main():
